@@ -180,6 +180,13 @@ pub enum Alt {
     MsoNameAsBytes(u8),
     /// two mDL documents: the first authentic but disclosing only the AAMVA namespace, the second with altered core items
     DocumentSplit(u8),
+    /// x5chain (label 33) in BOTH header buckets: the genuine signer certificate unprotected (where the reader looks),
+    /// a forger's certificate in the PROTECTED header, MSO signed with the forger's key over that protected header
+    X5InBothBuckets,
+    /// this document's items under the issuerAuth of ANOTHER mDL of the same issuer (same device key, other random salts)
+    IssuerAuthOfOther,
+    /// two mDL documents: a copy whose device signature was made with a foreign key, and the authentic one (forged first: true)
+    DocumentTwiceForgedSig(bool),
     /// device signature bytes that are not a 64-byte r||s in range: 63, 65, 32, 0 bytes, 64 zero bytes;
     /// 5 / 6: an authentic signature whose r / s starts with a zero octet, that octet deleted
     DevSigShape(u8),
@@ -350,6 +357,33 @@ pub fn apply(alt: &Alt, sc: &Scene, pt: &mut Value, rng: &mut StdRng) {
             let tbs = to_bytes(&arr(vec![text("Signature1"), bytes(&prot), bytes(&[]), bytes(&payload)]));
             let s: Signature = forger.sign(&tbs);
             ia[3] = bytes(&s.to_vec());
+        }
+        Alt::X5InBothBuckets => {
+            let forger = SigningKey::random(rng);
+            let c = pki::root_cert(&forger, "CN=Forger,C=US", 67);
+            let prot = to_bytes(&Value::Map(vec![(Value::Integer(1.into()), Value::Integer((-7).into())), (Value::Integer(33.into()), bytes(&c.to_der().unwrap()))]));
+            let ia = issuer_auth_mut(pt);
+            ia[0] = bytes(&prot);
+            let payload = ia[2].as_bytes().cloned().unwrap_or_default();
+            let tbs = to_bytes(&arr(vec![text("Signature1"), bytes(&prot), bytes(&[]), bytes(&payload)]));
+            let s: Signature = forger.sign(&tbs);
+            ia[3] = bytes(&s.to_vec());
+        }
+        Alt::IssuerAuthOfOther => {
+            let other = issue_with_key(&sc.pki, MDL, new_namespaces(rng), sc.alg, false, cose_key_of(&sc.device_key));
+            if let Some(v) = from_bytes(&isomdl::cbor::to_vec(&other.issuer_auth).unwrap()) {
+                let d = doc_mut(pt);
+                if let Some(slot) = map_get_mut(map_get_mut(d, "issuerSigned").unwrap(), "issuerAuth") { *slot = v; }
+            }
+        }
+        Alt::DocumentTwiceForgedSig(forged_first) => {
+            let authentic = doc_mut(pt).clone();
+            let other = SigningKey::random(rng);
+            resign_device(sc, pt, &other, MDL);
+            let forged = doc_mut(pt).clone();
+            if let Some(Value::Array(docs)) = map_get_mut(pt, "documents") {
+                *docs = if *forged_first { vec![forged, authentic] } else { vec![authentic, forged] };
+            }
         }
         Alt::ProtectedReencoded(k) => {
             // {1: -7} written differently; the signature stays the one over a1 01 26
@@ -652,7 +686,7 @@ pub fn weird_device_keys() -> Vec<(&'static str, CoseKey)> {
 pub fn c03_alts(rng: &mut StdRng, thorough: bool) -> Vec<Alt> {
     let mut v = vec![Alt::None, Alt::SigTruncate, Alt::ProtectedAlg(-35), Alt::ProtectedAlg(-70000), Alt::ProtectedAlgText, Alt::ProtectedEmpty, Alt::ProtectedKid,
         Alt::X5Remove, Alt::X5Unrelated, Alt::X5SelfSigned, Alt::X5Garbage, Alt::X5Array, Alt::X5RootAsLeaf, Alt::X5EmptyArray, Alt::X5WrongType,
-        Alt::X5Forged(false), Alt::X5Forged(true), Alt::X5GenuineThenForger,
+        Alt::X5Forged(false), Alt::X5Forged(true), Alt::X5GenuineThenForger, Alt::X5InBothBuckets,
         Alt::ProtectedReencoded(0), Alt::ProtectedReencoded(1), Alt::ProtectedReencoded(2), Alt::ProtectedReencoded(3),
         Alt::MsoNameAsBytes(0), Alt::MsoNameAsBytes(1), Alt::MsoNameAsBytes(2), Alt::MsoNameAsBytes(3)];
     let n = if thorough { 400 } else { 12 };
@@ -660,7 +694,7 @@ pub fn c03_alts(rng: &mut StdRng, thorough: bool) -> Vec<Alt> {
     v
 }
 pub fn c04_alts(rng: &mut StdRng, thorough: bool) -> Vec<Alt> {
-    let mut v = vec![Alt::None, Alt::ItemMove, Alt::ItemInject, Alt::ItemDuplicateOtherNs, Alt::NamespaceRename, Alt::DocumentTwice(true), Alt::DocumentTwice(false), Alt::DocumentSplit(0), Alt::DocumentSplit(1), Alt::DocumentSplit(2), Alt::ErrorsShadow(0, 0), Alt::ErrorsShadow(1, 1)];
+    let mut v = vec![Alt::None, Alt::ItemMove, Alt::ItemInject, Alt::ItemDuplicateOtherNs, Alt::NamespaceRename, Alt::DocumentTwice(true), Alt::DocumentTwice(false), Alt::DocumentSplit(0), Alt::DocumentSplit(1), Alt::DocumentSplit(2), Alt::ErrorsShadow(0, 0), Alt::ErrorsShadow(1, 1), Alt::IssuerAuthOfOther];
     let n = if thorough { 40 } else { 4 };
     for _ in 0..n {
         let (a, b) = (rng.gen_range(0..2), rng.gen_range(0..6));
@@ -672,7 +706,7 @@ pub fn c04_alts(rng: &mut StdRng, thorough: bool) -> Vec<Alt> {
 pub fn c05_alts(rng: &mut StdRng, thorough: bool) -> Vec<Alt> {
     let mut v = vec![Alt::None, Alt::DevSigOtherKey, Alt::DevNsChange, Alt::DevMac, Alt::DevDocTypeOther, Alt::DevProtectedAlg,
         Alt::DevAttached(0), Alt::DevAttached(1), Alt::DevAttached(2), Alt::DevAttached(3),
-        Alt::DevSigShape(5), Alt::DevSigShape(6), Alt::DevSigShape(0), Alt::DevSigShape(1), Alt::DevSigShape(2), Alt::DevSigShape(3), Alt::DevSigShape(4),
+        Alt::DocumentTwiceForgedSig(true), Alt::DocumentTwiceForgedSig(false), Alt::DevSigShape(5), Alt::DevSigShape(6), Alt::DevSigShape(0), Alt::DevSigShape(1), Alt::DevSigShape(2), Alt::DevSigShape(3), Alt::DevSigShape(4),
         Alt::MsoNameAsBytes(0), Alt::MsoNameAsBytes(1), Alt::MsoNameAsBytes(2), Alt::MsoNameAsBytes(3)];
     let n = if thorough { 200 } else { 10 };
     for _ in 0..n { v.push(Alt::DevSigFlip(rng.gen_range(0..64), rng.gen())); }
